@@ -1,7 +1,7 @@
 #!/bin/bash
 # run a command that modifies /repo's working tree while background soaks are paused
 touch /tmp/repo_busy
-while [ -e /tmp/soak_running ]; do sleep 2; done
+while ls /tmp/soak_running* >/dev/null 2>&1; do sleep 2; done
 "$@"; rc=$?
 git -C /repo checkout -- . 2>/dev/null
 rm -f /tmp/repo_busy
